@@ -70,6 +70,8 @@ variable {K : Type}
 @[simp] theorem Jet.sqrt_re [Mul K] [Div K] [OfNat K 2] (sqrt : K → K) (a : Jet K) : (Jet.sqrt sqrt a).re = sqrt a.re := rfl
 @[simp] theorem Jet.sqrt_eps [Mul K] [Div K] [OfNat K 2] (sqrt : K → K) (a : Jet K) :
     (Jet.sqrt sqrt a).eps = a.eps / (2 * sqrt a.re) := rfl
+@[simp] theorem Jet.exp_re [Mul K] (exp : K → K) (a : Jet K) : (Jet.exp exp a).re = exp a.re := rfl
+@[simp] theorem Jet.exp_eps [Mul K] (exp : K → K) (a : Jet K) : (Jet.exp exp a).eps = a.eps * exp a.re := rfl
 theorem Jet.lt_iff [LT K] (a b : Jet K) : a < b ↔ a.re < b.re := Iff.rfl
 end simpLemmas
 
